@@ -17,11 +17,9 @@ PRE = ('From Coq Require Import ZArith QArith List.\nRequire Import WV.model.C12
 PRIMES = [13, 17, 19, 23, 29, 31, 37]
 FLOWS = ['row', 'column', 'row dense', 'column dense']
 
-SIG_UNBOUND = "crash:('UnboundLocalError', 'weasyprint/layout/grid.py', 'grid_layout')"
-SIG_INDEX = "crash:('IndexError', 'weasyprint/layout/grid.py', '_resolve_tracks_sizes')"
-SIG_HANG = 'grid:hang-stale-first_i'
-SIG_NEG_LINE = 'grid:negative-line-not-from-end'
-SIG_NEG_INDEX = 'grid:negative-index-wraps'
+# F68-F72 (negative lines, negative indexing, stale first_i hang / UnboundLocalError, IndexError) are fixed in /repo:
+# such outcomes are judged normally (no signature).  Open: F73, F74, F75.
+SIG_NEG_EMPTY = 'grid:negative-line-no-explicit-track'
 SIG_MISSING_TRACK = 'grid:implicit-track-missing-for-span'
 SIG_FR_STRETCH = 'grid:fr-sum-below-one-stretched'
 SIG_FR_FREEZE = 'grid:fr-freeze-no-restart'
@@ -68,7 +66,7 @@ def impl_place_coq(st, o):
         site = tuple(o.get('site') or ())
         if site == ('UnboundLocalError', 'weasyprint/layout/grid.py', 'grid_layout'):
             return 'ICrashUnbound'
-        if site == ('IndexError', 'weasyprint/layout/grid.py', '_resolve_tracks_sizes'):
+        if site[:2] == ('IndexError', 'weasyprint/layout/grid.py'):
             return 'ICrashIndex'
         return 'ICrashOther'
     pl = '; '.join('None' if p is None else 'Some (%d, %d, %d, %d)' % tuple(p) for p in o['placement'])
@@ -262,23 +260,25 @@ def has_negative(c):
 
 def place_signature(c, st, o, mask):
     """mechanism signature of a specification failure on the unchanged implementation (None = not a known one)."""
-    if st == 'timeout':
-        return SIG_HANG
-    if st == 'exc':
-        return 'crash:%s' % (tuple(o['site']) if o.get('site') else None,)
+    if st != 'ok':
+        return None                                   # a crash or a hang is never an accepted outcome
     areas = [p for p in o['placement'] if p is not None]
     if mask & 8:
-        return None                                   # overlapping auto-placed items: never seen on the pinned tree
+        return None                                   # overlap: never accepted
     if mask & 4:
-        if not has_negative(c):
-            return None
-        return SIG_NEG_LINE
-    if mask & 16:
-        if any(p[0] < 0 or p[1] < 0 for p in areas):
-            return SIG_NEG_INDEX
-        if len(areas) == len(c['items']):
-            if (any(p[0] + p[2] > len(o['cols']) for p in areas) or any(p[1] + p[3] > len(o['rows']) for p in areas)):
-                return SIG_MISSING_TRACK
+        # reported: with `grid-template-columns/rows: none` the code counts negative integers from the end of an
+        # explicit grid of ONE track (grid_areas = [[None]]), css-grid 7.1/8.3: no explicit track, line -1 = line 1
+        def neg(g):
+            return g != 'auto' and g[0] == 'L' and g[1] < 0
+        if ((len(c['cols']) == 0 and any(neg(it['cs']) or neg(it['ce']) for it in c['items'])) or
+                (len(c['rows']) == 0 and any(neg(it['rs']) or neg(it['re']) for it in c['items']))):
+            return SIG_NEG_EMPTY
+        return None
+    if mask & 16 and len(areas) == len(c['items']):
+        # F73: the area of an auto-placed item reaches beyond the last track of the flow axis (areas are counted
+        # from the first implicit track)
+        if (any(p[0] + p[2] > len(o['cols']) for p in areas) or any(p[1] + p[3] > len(o['rows']) for p in areas)):
+            return SIG_MISSING_TRACK
     return None
 
 
